@@ -30,7 +30,9 @@ func VerifH_C02_Unchanged() {
 // VerifH_C17_NoDisclosure: no response header or body contains the host
 // path of the served directory.
 func VerifH_C17_NoDisclosure() {
+	verifWantOpenFault = true
 	run := runStep(true, true)
+	verifWantOpenFault = false
 	defer verifCleanup()
 	m := run.req.method
 	body := run.rec.body()
